@@ -66,7 +66,8 @@ Definition step (s : st) (t : nat) (a : act) : res :=
             ths := upd (ths s) t {| clk := c'; pend := join (pend x) (view (hdm s)); refs := S (refs x);
                                     excl := false; mustfree := mustfree x; started := true; lend := lend x |} |}
   | ARelease =>
-      if negb (Nat.ltb 0 (refs x)) || mustfree x || lends_from s t then Stuck else
+      (* a lending thread keeps the handle it lent: it may drop its other handles *)
+      if negb (Nat.ltb 0 (refs x)) || mustfree x || (lends_from s t && Nat.leb (refs x) 1) then Stuck else
       if negb (live s) then Err UAF else
       let c' := tick (clk x) t in
       let m := {| val := val (hdm s) - 1; view := join (view (hdm s)) c'; wt := t; we := get c' t |} in
@@ -83,7 +84,8 @@ Definition step (s : st) (t : nat) (a : act) : res :=
             ths := upd (ths s) t {| clk := c'; pend := pend x; refs := refs x; excl := false;
                                     mustfree := false; started := true; lend := lend x |} |}
   | AProbe p =>
-      if negb (Nat.ltb 0 (refs x)) || lends_from s t then Stuck else
+      (* is_unique is reached from &mut methods only: never on a lent handle, but on the lender's other handles *)
+      if negb (Nat.ltb 0 (refs x)) || (lends_from s t && Nat.leb (refs x) 1) then Stuck else
       if negb (live s) then Err UAF else
       match nth_error (msgs s) p with
       | None => Stuck
